@@ -433,6 +433,31 @@ where
             })
     }
 
+    /// Read exactly `len` bytes of value data into the internal buffer.
+    ///
+    /// The buffer grows as data arrives,
+    /// because the length declared in the source cannot be trusted
+    /// for an up-front allocation.
+    fn fill_buffer(&mut self, len: usize) -> Result<()> {
+        self.buffer.clear();
+        let bytes_read = self
+            .from
+            .by_ref()
+            .take(len as u64)
+            .read_to_end(&mut self.buffer)
+            .context(ReadValueDataSnafu {
+                position: self.position,
+            })?;
+        if bytes_read < len {
+            return Err(std::io::Error::from(std::io::ErrorKind::UnexpectedEof)).context(
+                ReadValueDataSnafu {
+                    position: self.position,
+                },
+            );
+        }
+        Ok(())
+    }
+
     /// Consume the trailing bytes of a value
     /// whose length is not a multiple of the size of its samples,
     /// so that the source stays aligned with the declared value length.
@@ -475,10 +500,8 @@ where
         let len = self.require_known_length(header)?;
 
         // sequence of 8-bit integers (or arbitrary byte data)
-        let mut buf = smallvec![0u8; len];
-        self.from.read_exact(&mut buf).context(ReadValueDataSnafu {
-            position: self.position,
-        })?;
+        self.fill_buffer(len)?;
+        let buf = smallvec::SmallVec::from_vec(std::mem::take(&mut self.buffer));
         self.position += len as u64;
         Ok(PrimitiveValue::U8(buf))
     }
@@ -486,12 +509,7 @@ where
     fn read_value_strs(&mut self, header: &DataElementHeader) -> Result<PrimitiveValue> {
         let len = self.require_known_length(header)?;
         // sequence of strings
-        self.buffer.resize_with(len, Default::default);
-        self.from
-            .read_exact(&mut self.buffer)
-            .context(ReadValueDataSnafu {
-                position: self.position,
-            })?;
+        self.fill_buffer(len)?;
 
         let use_charset_declared = match (self.charset_override, header.vr()) {
             (CharacterSetOverride::AnyVr, _) => true,
@@ -529,12 +547,7 @@ where
         let len = self.require_known_length(header)?;
 
         // a single string
-        self.buffer.resize_with(len, Default::default);
-        self.from
-            .read_exact(&mut self.buffer)
-            .context(ReadValueDataSnafu {
-                position: self.position,
-            })?;
+        self.fill_buffer(len)?;
         self.position += len as u64;
         Ok(PrimitiveValue::Str(
             self.text
@@ -550,9 +563,10 @@ where
         let len = self.require_known_length(header)?;
 
         let n = len >> 1;
+        self.fill_buffer(n << 1)?;
         let mut vec = smallvec![0; n];
         self.basic
-            .decode_ss_into(&mut self.from, &mut vec[..])
+            .decode_ss_into(&self.buffer[..], &mut vec[..])
             .context(ReadValueDataSnafu {
                 position: self.position,
             })?;
@@ -566,9 +580,10 @@ where
         let len = self.require_known_length(header)?;
         // sequence of 32-bit floats
         let n = len >> 2;
+        self.fill_buffer(n << 2)?;
         let mut vec = smallvec![0.; n];
         self.basic
-            .decode_fl_into(&mut self.from, &mut vec[..])
+            .decode_fl_into(&self.buffer[..], &mut vec[..])
             .context(ReadValueDataSnafu {
                 position: self.position,
             })?;
@@ -581,12 +596,7 @@ where
         let len = self.require_known_length(header)?;
         // sequence of dates
 
-        self.buffer.resize_with(len, Default::default);
-        self.from
-            .read_exact(&mut self.buffer)
-            .context(ReadValueDataSnafu {
-                position: self.position,
-            })?;
+        self.fill_buffer(len)?;
         let buf = trim_trail_empty_bytes(&self.buffer);
         if buf.is_empty() {
             self.position += len as u64;
@@ -621,12 +631,7 @@ where
         let len = self.require_known_length(header)?;
         // sequence of doubles in text form
 
-        self.buffer.resize_with(len, Default::default);
-        self.from
-            .read_exact(&mut self.buffer)
-            .context(ReadValueDataSnafu {
-                position: self.position,
-            })?;
+        self.fill_buffer(len)?;
         let buf = trim_trail_empty_bytes(&self.buffer);
         if buf.is_empty() {
             self.position += len as u64;
@@ -654,12 +659,7 @@ where
         let len = self.require_known_length(header)?;
         // sequence of datetimes
 
-        self.buffer.resize_with(len, Default::default);
-        self.from
-            .read_exact(&mut self.buffer)
-            .context(ReadValueDataSnafu {
-                position: self.position,
-            })?;
+        self.fill_buffer(len)?;
         let buf = trim_trail_empty_bytes(&self.buffer);
         if buf.is_empty() {
             self.position += len as u64;
@@ -692,12 +692,7 @@ where
     fn read_value_is(&mut self, header: &DataElementHeader) -> Result<PrimitiveValue> {
         let len = self.require_known_length(header)?;
         // sequence of signed integers in text form
-        self.buffer.resize_with(len, Default::default);
-        self.from
-            .read_exact(&mut self.buffer)
-            .context(ReadValueDataSnafu {
-                position: self.position,
-            })?;
+        self.fill_buffer(len)?;
         let buf = trim_trail_empty_bytes(&self.buffer);
         if buf.is_empty() {
             self.position += len as u64;
@@ -725,12 +720,7 @@ where
         let len = self.require_known_length(header)?;
         // sequence of time instances
 
-        self.buffer.resize_with(len, Default::default);
-        self.from
-            .read_exact(&mut self.buffer)
-            .context(ReadValueDataSnafu {
-                position: self.position,
-            })?;
+        self.fill_buffer(len)?;
         let buf = trim_trail_empty_bytes(&self.buffer);
         if buf.is_empty() {
             self.position += len as u64;
@@ -765,9 +755,10 @@ where
         let len = self.require_known_length(header)?;
         // sequence of 64-bit floats
         let n = len >> 3;
+        self.fill_buffer(n << 3)?;
         let mut vec = smallvec![0.; n];
         self.basic
-            .decode_fd_into(&mut self.from, &mut vec[..])
+            .decode_fd_into(&self.buffer[..], &mut vec[..])
             .context(ReadValueDataSnafu {
                 position: self.position,
             })?;
@@ -781,9 +772,10 @@ where
         // sequence of 32-bit unsigned integers
 
         let n = len >> 2;
+        self.fill_buffer(n << 2)?;
         let mut vec = smallvec![0u32; n];
         self.basic
-            .decode_ul_into(&mut self.from, &mut vec[..])
+            .decode_ul_into(&self.buffer[..], &mut vec[..])
             .context(ReadValueDataSnafu {
                 position: self.position,
             })?;
@@ -793,11 +785,12 @@ where
     }
 
     fn read_u32(&mut self, n: usize, vec: &mut Vec<u32>) -> Result<()> {
+        self.fill_buffer(n * 4)?;
         let base = vec.len();
         vec.resize(base + n, 0);
 
         self.basic
-            .decode_ul_into(&mut self.from, &mut vec[base..])
+            .decode_ul_into(&self.buffer[..], &mut vec[base..])
             .context(ReadValueDataSnafu {
                 position: self.position,
             })?;
@@ -810,9 +803,10 @@ where
         // sequence of 16-bit unsigned integers
 
         let n = len >> 1;
+        self.fill_buffer(n << 1)?;
         let mut vec = smallvec![0; n];
         self.basic
-            .decode_us_into(&mut self.from, &mut vec[..])
+            .decode_us_into(&self.buffer[..], &mut vec[..])
             .context(ReadValueDataSnafu {
                 position: self.position,
             })?;
@@ -833,9 +827,10 @@ where
         // sequence of 64-bit unsigned integers
 
         let n = len >> 3;
+        self.fill_buffer(n << 3)?;
         let mut vec = smallvec![0; n];
         self.basic
-            .decode_uv_into(&mut self.from, &mut vec[..])
+            .decode_uv_into(&self.buffer[..], &mut vec[..])
             .context(ReadValueDataSnafu {
                 position: self.position,
             })?;
@@ -849,9 +844,10 @@ where
         // sequence of 32-bit signed integers
 
         let n = len >> 2;
+        self.fill_buffer(n << 2)?;
         let mut vec = smallvec![0; n];
         self.basic
-            .decode_sl_into(&mut self.from, &mut vec[..])
+            .decode_sl_into(&self.buffer[..], &mut vec[..])
             .context(ReadValueDataSnafu {
                 position: self.position,
             })?;
@@ -865,9 +861,10 @@ where
         // sequence of 64-bit signed integers
 
         let n = len >> 3;
+        self.fill_buffer(n << 3)?;
         let mut vec = smallvec![0; n];
         self.basic
-            .decode_sv_into(&mut self.from, &mut vec[..])
+            .decode_sv_into(&self.buffer[..], &mut vec[..])
             .context(ReadValueDataSnafu {
                 position: self.position,
             })?;
